@@ -1,4 +1,6 @@
 SPECIFICATION Spec
-CONSTANT MaxDoc = 6
-INVARIANTS LineIsLFCount OffsetInside EmitPlans
+CONSTANTS
+  MaxDoc = 6
+  OffsetUnit = "bytes"
+INVARIANTS LineIsLFCount OffsetIsBytes OffsetInside LineMatchesByteOffset EmitPlans
 CHECK_DEADLOCK FALSE
